@@ -590,8 +590,15 @@ def corr_nested(ctx, drv):
         ctx.traces_vs_impl += 1
         pts_model = [[G.unrat(c) for c in p] for p in rep2[k]['pts']]
         pts_impl = [p for s in got for p in s['p']]
-        # the nested func_instance went through text (origin/angles at 6 decimals): coordinates up to ~5000 * 1e-8 rad
-        if len(pts_model) != len(pts_impl) or any(abs(a[j] - float(b[j])) > 2e-3 for a, b in zip(pts_impl, pts_model) for j in range(3)):
+        # the nested func_instance went through text (origin/angles at 6 decimals): coordinates up to ~5000 * 1e-8 rad;
+        # if its composed orientation is within 0.0011 of vertical, to_angle drops up to 1e-3 rad of roll
+        m1, m2 = G.mat_entries(R1), G.mat_entries(R2)
+        comp = [sum(m1[3 * i + t] * m2[3 * t + j] for t in range(3)) for i in range(3) for j in range(3)]
+        tol = 2e-3
+        if G.gimbal(comp):
+            ctx.count('nested near-vertical (loose tolerance)')
+            tol = 2.5e-3 * (1.0 + max(abs(c) for s_ in sides0 for p in s_['p'] for c in p))
+        if len(pts_model) != len(pts_impl) or any(abs(a[j] - float(b[j])) > tol for a, b in zip(pts_impl, pts_model) for j in range(3)):
             ctx.disagree(case, pts_impl[:3], [[float(c) for c in p] for p in pts_model[:3]], 'nested inclusion vs place (P1 >> P2)')
             _wit(ctx, 'nested', f'inner brush of a two-level inclusion is not at the composed placement: {case}', {'kind': 'nested', 'case': case})
 
@@ -778,7 +785,7 @@ def correspond(ctx, drivers):
     corr_nested(ctx, drv)
     corr_from_angle(ctx, drv)
     # histories
-    n_hist = ctx.budget(250, 4000)
+    n_hist = ctx.budget(600, 4000)
     reqs, meta = [], []
     ctx.extra['history_seeds'] = []
     for _ in range(n_hist):
@@ -817,7 +824,7 @@ def search(ctx):
     histories with $variables inside numeric keys (outside the model), neighbours of disagreeing histories, and
     everything again if the driver could not be built."""
     impl()
-    n = ctx.budget(80, 800)
+    n = ctx.budget(200, 1000)
     if not ctx.extra.get('histories_done'):
         n += ctx.budget(250, 2500)
         for g in [gen_graph(ctx.rng, ctx.thorough) for _ in range(ctx.budget(120, 1200))]:
